@@ -6,7 +6,9 @@ EXTENDS Calls, Emit
 
 TlsPool == << EncRecordRaw(22, 771, <<14, 0, 0, 0>>), EncRecordRaw(20, 771, <<1>>), EncRecordRaw(21, 769, <<2, 40>>),
               EncRecordRaw(23, 771, <<1, 2, 3>>), EncRecordRaw(24, 771, <<1, 0, 1, 9, 0, 0>>),
-              EncRecordRaw(22, 771, <<0, 0, 0, 0, 20, 0, 0, 1, 7>>), EncRecordRaw(23, 771, <<>>) >>
+              EncRecordRaw(22, 771, <<0, 0, 0, 0, 20, 0, 0, 1, 7>>), EncRecordRaw(23, 771, <<>>),
+              (* the record parser does not look at the version: any value is a record *)
+              EncRecordRaw(23, 512, <<4, 5>>), EncRecordRaw(22, 65277, <<14, 0, 0, 0>>), EncRecordRaw(21, 0, <<1, 0>>) >>
 TlsTails == << <<>>, SubSeq(TlsPool[1], 1, 7), <<22, 3, 3>>, <<22, 3, 3, 65, 1>>, <<1, 2, 3>>,
                EncRecordRaw(22, 771, <<99, 0, 0, 0>>), EncRecordRaw(21, 771, <<>>), EncRecordRaw(7, 771, <<1>>) >>
 DtlsPool == << EncDtlsRecord(22, 65277, 0, <<0, 0, 1>>, EncDtlsHs(14, 0, 1, 0, 0, <<>>)),
@@ -23,6 +25,16 @@ BigDtls == << EncDtlsRecord(22, 65277, 0, <<0, 0, 7>>, EncDtlsHs(11, 40000, 1, 0
 BigCases(pool, big, fn, single) ==
   Concat([b \in 1..Len(big) |-> << Mk(fn, single, pool[1] \o big[b]), Mk(fn, single, big[b] \o pool[2]),
                                      Mk(fn, single, pool[1] \o big[b] \o pool[3]), Mk(fn, single, pool[2] \o pool[1] \o big[b]) >>])
+(* a complete record that fails to parse, with valid records AFTER it: parsing stops there and does not resume *)
+MidCases(pool, fails, fn, single) ==
+  Concat([f \in 1..Len(fails) |->
+    << Mk(fn, single, pool[1] \o fails[f] \o pool[2]), Mk(fn, single, fails[f] \o pool[1]),
+       Mk(fn, single, pool[2] \o pool[1] \o fails[f] \o fails[f] \o pool[3]), Mk(fn, single, pool[3] \o fails[f] \o pool[3] \o fails[f]) >>])
+TlsFails == << EncRecordRaw(22, 771, <<99, 0, 0, 0>>), EncRecordRaw(21, 771, <<>>), EncRecordRaw(7, 771, <<1>>), EncRecordRaw(24, 771, <<1, 0, 9, 1>>),
+               EncRecordRaw(20, 771, <<2>>) >>
+DtlsFails == << EncDtlsRecord(23, 65277, 0, <<0, 0, 3>>, <<1>>), EncDtlsRecord(23, 65277, 1, <<0, 0, 4>>, Fill(1, 100)),
+                EncDtlsRecord(22, 65277, 0, <<0, 0, 3>>, <<>>), EncDtlsRecord(24, 65277, 0, <<0, 0, 3>>, <<1, 0, 0>>),
+                EncDtlsRecord(22, 65277, 0, <<0, 0, 5>>, EncDtlsHs(4, 2, 0, 0, 2, <<1, 2>>)), EncDtlsRecord(20, 65277, 0, <<0, 0, 6>>, <<2>>) >>
 Idx(n) == SetToSeq(UNION {[1..k -> 1..n] : k \in 0..2} \cup {<<1, 2, 3>>, <<3, 3, 3>>, <<2, 1, 2>>})
 Build(pool, tails, fn, single) ==
   LET ix == Idx(Len(pool)) IN
@@ -32,6 +44,8 @@ Build(pool, tails, fn, single) ==
 ASSUME TLCSet(1, Build(TlsPool, TlsTails, "tls_parser_many", "parse_tls_plaintext")
                  \o Build(DtlsPool, DtlsTails, "parse_dtls_plaintext_records", "parse_dtls_plaintext_record")
                  \o Build(SubSeq(TlsPool, 1, 3), SubSeq(TlsTails, 1, 5), "tls_parser", "parse_tls_plaintext")
+                 \o MidCases(TlsPool, TlsFails, "tls_parser_many", "parse_tls_plaintext")
+                 \o MidCases(DtlsPool, DtlsFails, "parse_dtls_plaintext_records", "parse_dtls_plaintext_record")
                  \o BigCases(TlsPool, BigTls, "tls_parser_many", "parse_tls_plaintext")
                  \o BigCases(DtlsPool, BigDtls, "parse_dtls_plaintext_records", "parse_dtls_plaintext_record"))
 Cases == TLCGet(1)
